@@ -116,7 +116,7 @@ func (t DataType) goValue(endian binary.ByteOrder, bs []byte) (interface{}, erro
 			return true, nil
 		}
 		return false, nil
-	case LONGBINARY, BINARY, VARBINARY, IMAGE:
+	case LONGBINARY, BINARY, VARBINARY, IMAGE, XML:
 		if len(bs) == 0 {
 			return nil, nil
 		}
